@@ -704,7 +704,7 @@ theorem obsNet_svd_partial (np : NetProblem K) (hsh : Shape np) (hnd : np.minx.N
     exact solverObj_svd (Net.dotProblem np hh) d hd
   obtain ⟨h1, hW, hinj, hA, hb⟩ := prepare_whiten hsq np hsh.dims hsh.rows P hP hh hp
   have eA : (Net.dotProblem np hh).A = ((Lgen np hh.Us)ᵀ * P) * (toProblem np).A := by
-    unfold Net.dotProblem; rw [Gama.Ls.AdjM.dotProblem_A, hA]
+    unfold Net.dotProblem; rw [Gama.Ls.dotProblem_A, hA]
   have eS : (Net.dotProblem np hh).S = (toProblem np).S := rfl
   obtain ⟨c1, c2, -, -, c5, -⟩ := Props.C20.C20_svd_decompose_sound_partial (sq := (Gso.SqrtField.sqrt : K → K))
     sqrtLaw_of_sqrtField true Svd.wTol_nonneg (Net.dotProblem np hh) d hd hun
@@ -727,6 +727,29 @@ theorem obsNet_svd_partial (np : NetProblem K) (hsh : Shape np) (hnd : np.minx.N
     exact hr' g ((ker_whiten hinj g).2 hg) hz
 
 theorem idleObs_counted : (idleObs : SolverObs K).Counted 0 := ⟨rfl, fun h => by cases h⟩
+
+/-- the per-configuration hypothesis of the svd theorem about `worldOf (peWorld base) (obsNet .svd)` -/
+def SvdWorldHyp (t : TrigFns K) (base : PE.Net K) : Prop :=
+  ∀ dnet np, (@peWorld K (trigOfField t) base dnet).prob = some np →
+    RowsOK (toProblem np) ∧ np.m0 ≠ 0 ∧
+    (∃ Pc : Matrix (Fin (toProblem np).m) (Fin (toProblem np).m) K, Sigma np * Pc = 1) ∧ SvdHyp np
+
+theorem svdWorldHyp_partial (t : TrigFns K) (base : PE.Net K) (hH : SvdWorldHyp t base)
+    (dnet : NetDecision.Net) (np : NetProblem K) (hp : (@peWorld K (trigOfField t) base dnet).prob = some np) :
+    (obsNet .svd (some np)).Counted np.n ∧
+    (obsNet .svd (some np)).defect + (toProblem np).A.rank = np.n ∧
+    ((obsNet .svd (some np)).refused = none → Resolves (toProblem np).A (toProblem np).S) := by
+  obtain ⟨hacc, hdim, hnd, hr⟩ := peWorld_facts t base dnet np hp
+  obtain ⟨hrows, hm0, ⟨Pc, hPc⟩, hsvd⟩ := hH dnet np hp
+  exact obsNet_svd_partial np ⟨hdim, hrows, ⟨_, weight_of_sigma np hdim hm0 Pc hPc⟩, hacc, hr⟩ hnd hsvd
+
+theorem peWorld_obsNet_svd_counted (t : TrigFns K) (base : PE.Net K) (hH : SvdWorldHyp t base)
+    (dnet : NetDecision.Net) :
+    (obsNet .svd (@peWorld K (trigOfField t) base dnet).prob).Counted
+      (linO (@peWorld K (trigOfField t) base dnet).prob).n := by
+  cases hp : (@peWorld K (trigOfField t) base dnet).prob with
+  | none => exact idleObs_counted
+  | some np => exact (svdWorldHyp_partial t base hH dnet np hp).1
 
 end H
 end Gama.Ls.Net
